@@ -558,7 +558,9 @@ impl Gener {
                     Some(g) if self.rng.chance(3, 4) => g.value.clone(),
                     _ => self.value(spec, &k),
                 };
-                let new = self.value(spec, &k);
+                // now and then a self-swap (new == expected): still a write - it takes a new timestamp and
+                // replaces the TTL
+                let new = if self.rng.chance(1, 6) { expected.clone() } else { self.value(spec, &k) };
                 let ts = self.ts(spec, m, &k);
                 let ttl = if self.rng.chance(1, 4) { Some(self.ttl()) } else { None };
                 Op::Cas { k, expected, new, ts, ttl }
